@@ -77,7 +77,16 @@ func c13CheckCube(list c13Lister, order []cid.Cid, what string, count func(nontr
 	for _, s := range bounds {
 		for _, u := range bounds {
 			for _, rev := range []bool{false, true} {
-				got, err := list(s.bytes, u.bytes, rev)
+				var got []string
+				var err error
+				var pan any
+				func() {
+					defer func() { pan = recover() }()
+					got, err = list(s.bytes, u.bytes, rev)
+				}()
+				if pan != nil {
+					return "listing-panicked", fmt.Sprintf("%s since=%s until=%s reverse=%v on %d entries: panic: %v", what, s.name, u.name, rev, n, pan)
+				}
 				desc := fmt.Sprintf("%s since=%s until=%s reverse=%v on %d entries", what, s.name, u.name, rev, n)
 				wantErr := s.idx == -2 || u.idx == -2
 				lo, hi := 0, n-1
